@@ -2,6 +2,7 @@
    Only statements closed by `exact`, each followed by Print Assumptions. *)
 From Coq Require Import ZArith List Bool.
 From MV Require Import Bvh.BvhDefs Bvh.BvhModel Bvh.BvhSmall Bvh.Sweep2Defs Bvh.Sweep2Model Bvh.Kd2Model.
+From MV Require Import Bvh.Karras3.
 Import ListNotations.
 Local Open Scope Z_scope.
 
@@ -88,3 +89,20 @@ Theorem kd_query_exact_multiset :
                             (filter (contains r) (build_two_d_tree points)).
 Proof. exact kd_query_exact_perm. Qed.
 Print Assumptions kd_query_exact_multiset.
+
+(* Radix tree construction, for ALL inputs: for every n in [2, 2^30) and every
+   non-decreasing array of 32-bit codes (duplicates allowed), the ported
+   CreateRadixTree (RangeEnd growth + binary search, FindSplit, PrefixLength with
+   the index tie-break; kInitialLength = 128, kLengthMultiple = 4) terminates
+   within its fuel, never evaluates clz(0), and yields a children array that
+   describes a binary tree rooted at kRoot whose leaves are 0..n-1 in order and
+   whose depth is at most 64 (the traversal stack size). *)
+Theorem radix_tree_wf_all : forall (n : Z) (code : Z -> Z),
+  2 <= n < 2 ^ 30 ->
+  (forall i, 0 <= i < n -> 0 <= code i < 2 ^ 32) ->
+  (forall i j, 0 <= i -> i <= j -> j < n -> code i <= code j) ->
+  exists ch, build_tree 128 4 n code = Some ch /\ length ch = Z.to_nat (n - 1) /\
+    exists t, tree_of (nthP ch) (Z.to_nat (2 * n)) kRoot = Some t /\ is_nd t /\
+              leaves t = zseq (Z.to_nat n) 0 /\ (depth t <= 64)%nat.
+Proof. exact radix_tree_wf. Qed.
+Print Assumptions radix_tree_wf_all.
